@@ -288,12 +288,26 @@ type penv struct {
 	back    map[edge]int
 	defers  []*ssa.Defer
 	phiIn   map[*ssa.Phi]ssa.Value
+	rel     map[[2]ssa.Value]bool // known (in)equality between two non-constant values
+	notNil  map[ssa.Value]bool    // values known to differ from nil
 }
 
 func (e *penv) clone() *penv {
 	n := &penv{consts: map[ssa.Value]constant.Value{}, fields: map[string]constant.Value{}, chosen: map[*ssa.Select]int{}, exclude: map[*ssa.Select]map[int]bool{}, back: map[edge]int{}, phiIn: map[*ssa.Phi]ssa.Value{}}
 	for k, v := range e.phiIn {
 		n.phiIn[k] = v
+	}
+	if len(e.notNil) > 0 {
+		n.notNil = map[ssa.Value]bool{}
+		for k, v := range e.notNil {
+			n.notNil[k] = v
+		}
+	}
+	if len(e.rel) > 0 {
+		n.rel = map[[2]ssa.Value]bool{}
+		for k, v := range e.rel {
+			n.rel[k] = v
+		}
 	}
 	for k, v := range e.consts {
 		n.consts[k] = v
@@ -397,6 +411,18 @@ func (en *enumerator) evalConst(v ssa.Value, env *penv) constant.Value {
 			}
 		}
 	case *ssa.BinOp:
+		if x.Op == token.EQL || x.Op == token.NEQ {
+			if cy, ok := x.Y.(*ssa.Const); ok && cy.IsNil() && env.notNil[resolvePhi(x.X, env)] {
+				return constant.MakeBool(x.Op == token.NEQ)
+			}
+			rx, ry := resolvePhi(x.X, env), resolvePhi(x.Y, env)
+			if eq, ok := env.rel[[2]ssa.Value{rx, ry}]; ok {
+				return constant.MakeBool(eq == (x.Op == token.EQL))
+			}
+			if eq, ok := env.rel[[2]ssa.Value{ry, rx}]; ok {
+				return constant.MakeBool(eq == (x.Op == token.EQL))
+			}
+		}
 		a, b := en.evalConst(x.X, env), en.evalConst(x.Y, env)
 		if a != nil && b != nil && a.Kind() == b.Kind() {
 			switch x.Op {
@@ -531,6 +557,10 @@ func (en *enumerator) walk(fn *ssa.Function, b *ssa.BasicBlock, pred *ssa.BasicB
 			}
 		}
 		switch x := in.(type) {
+		case *ssa.Select:
+			// a new execution of the select: forget the choice of an earlier iteration
+			delete(env.chosen, x)
+			delete(env.exclude, x)
 		case *ssa.Store:
 			if a, ok := x.Addr.(*ssa.Alloc); ok {
 				if cv := en.evalConst(x.Val, env); cv != nil {
@@ -670,6 +700,20 @@ func (en *enumerator) assume(cond ssa.Value, val bool, env *penv) {
 		// x == const / x != const teaches x on the matching edge
 		if x.Op == token.EQL || x.Op == token.NEQ {
 			eq := (x.Op == token.EQL) == val
+			if cy, ok := x.Y.(*ssa.Const); ok && cy.IsNil() && !eq {
+				if env.notNil == nil {
+					env.notNil = map[ssa.Value]bool{}
+				}
+				env.notNil[resolvePhi(x.X, env)] = true
+			}
+			if _, c1 := x.X.(*ssa.Const); !c1 {
+				if _, c2 := x.Y.(*ssa.Const); !c2 {
+					if env.rel == nil {
+						env.rel = map[[2]ssa.Value]bool{}
+					}
+					env.rel[[2]ssa.Value{resolvePhi(x.X, env), resolvePhi(x.Y, env)}] = eq
+				}
+			}
 			if eq {
 				if c := en.evalConst(x.Y, env); c != nil {
 					env.consts[x.X] = c
